@@ -727,7 +727,7 @@ LIBM_PURE = {  # external name -> (C name CBMC models, arity)   [CBMC library mo
     'llvm.ceil.f32': 'ceilf', 'llvm.ceil.f64': 'ceil', 'llvm.round.f32': 'roundf', 'llvm.round.f64': 'round',
     'llvm.fabs.f32': 'fabsf', 'llvm.fabs.f64': 'fabs', 'llvm.copysign.f32': 'copysignf', 'llvm.copysign.f64': 'copysign',
     'trunc': 'trunc', 'truncf': 'truncf', 'floor': 'floor', 'floorf': 'floorf', 'ceil': 'ceil', 'ceilf': 'ceilf',
-    'round': 'round', 'roundf': 'roundf', 'fabs': 'fabs', 'fabsf': 'fabsf', 'copysign': 'copysign', 'copysignf': 'copysignf',
+    'abs': 'abs', 'labs': 'labs', 'llabs': 'llabs', 'round': 'round', 'roundf': 'roundf', 'fabs': 'fabs', 'fabsf': 'fabsf', 'copysign': 'copysign', 'copysignf': 'copysignf',
 }
 # trusted stubs: value unconstrained, arguments recorded in ghost variables (DESIGN 4.3)
 LIBM_STUB = {'sin', 'sinf', 'cos', 'cosf', 'tan', 'tanf', 'asin', 'asinf', 'acos', 'acosf', 'atan', 'atanf', 'atan2', 'atan2f',
